@@ -317,6 +317,7 @@ fn run_check(args: &[String]) -> i32 {
             _ => judge(c, &build_impl(c)),
         }
     };
+    let diff_cases: Vec<Case> = o.model_diffs.iter().map(|(c, _, _)| c.clone()).collect();
     let search = || -> check::Outcome {
         // deeper, oracle-only exploration of the same property
         let mut rng2 = Rng(ctx.seed.wrapping_add(0x5eed));
@@ -328,7 +329,15 @@ fn run_check(args: &[String]) -> i32 {
             "C17" => check::Outcome::default(),
             _ => {
                 let deep = props::plan(&ctx, &mut rng2, check::Tier::Thorough);
-                check::run_cases(&quiet, &deep.cases, &*deep.judge, false)
+                if ctx.model.available() && !diff_cases.is_empty() {
+                    // the correspondence broke and the model still runs: search around the inputs on which implementation
+                    // and model differ, with the model in the loop, so that a failure where they differ is recognised as new
+                    let mut cases = gen::around(&mut rng2, &diff_cases, 60_000);
+                    cases.extend(deep.cases.iter().cloned());
+                    check::run_cases(&ctx, &cases, &*deep.judge, false)
+                } else {
+                    check::run_cases(&quiet, &deep.cases, &*deep.judge, false)
+                }
             }
         }
     };
